@@ -27,6 +27,22 @@ CLAIMS = {
                  'processes is not decided. Seven genuine order dependences are recorded as known findings, three were repaired.',
         'technique': 'ValueSet typing fixpoint + order-taint at API boundary + CFG must/pair rules (ast)',
     },
+    'C03': {
+        'level': 'The order of consultation that LEGB is: the filter chain of get_global_filters walks outward by parent_context only and ends '
+                 'with builtins; the position limit is dropped exactly when leaving function/module scopes and after that scope\'s filters '
+                 'were produced; filter_name stops at the innermost non-empty answer; per-scope filters keep only own-scope names before '
+                 'the position, latest reachable first; methods get a parent context climbed past classes; global statements are merged '
+                 'into both module filter producers; the two header-rule implementations agree. Which binding Python uses at run time is not decided.',
+        'technique': 'CFG order/gate/must rules + sibling-implementation agreement (ast)',
+    },
+    'C04': {
+        'level': 'The algebra between fragment, name, complete, prefix length, uniqueness and order, which lives in a few small functions: '
+                 'CFG gate rules show the yield of a completion is control-dependent on match() and on the (name, complete) de-duplication, '
+                 'def-use rules tie the reported prefix length to the very string matched, complete is None exactly when fuzzy and equals '
+                 'name_with_symbols minus the prefix, the sort key equals the documented one, match() is startswith/subsequence, and every '
+                 'attribute source loop is exhaustive. Completeness against live objects is not decided.',
+        'technique': 'CFG gate rules + def-use shape rules + sort-key table comparison (ast)',
+    },
     'C05': {
         'level': 'Rename as a pure function of the reported references: def-use and loop-shape rules on Script.rename and refactoring.rename '
                  '(every element consumed by one of three branches, token text = own prefix + new name), PAIR on the flow-analysis switch with '
